@@ -1,4 +1,4 @@
-\* expected violation: the shutdown snapshot survives its first use and is resumed after a reorg + crash
+\* expected violation: onReorg re-opens a window without clearing the reverted block's column (the stale bits are persisted again when the window is completed)
 CONSTANTS
   W = 3
   Base = 2
@@ -9,11 +9,11 @@ CONSTANTS
   AnyRange = FALSE
   PurgeAt <- PurgeAlways
   DropReopenedWindow = TRUE
-  SnapshotConsumedOnLoad = FALSE
-  ClearRevertedColumn = TRUE
+  SnapshotConsumedOnLoad = TRUE
+  ClearRevertedColumn = FALSE
 INIT WInit
 NEXT WNext
 VIEW wview
-INVARIANTS AnswersAsTwin
+INVARIANTS DiskAsTwin
 PROPERTIES WRestartIsNoOp
 CHECK_DEADLOCK FALSE
